@@ -710,4 +710,238 @@ theorem C14_open_files_le_num_fds (w : World) (hwf : ∀ d ∈ w.fds, WFFd w.fs 
           · cases h1; cases h2
             exact List.length_filterMap_le _ _
 
+/-! ## round 3 (audit-driven) -/
+
+/-! ### the loop runs over every listed name; `num_fds` is uncapped (audit item 3) -/
+
+/-- two descriptors `3 -> /f`, `4 -> /f` (fdinfo `pos:\t0\nflags:\t02\n`) -/
+def procTwo : Proc :=
+  { fdDir := .ok [⟨[51], .ok [47, 102], .ok [112, 111, 115, 58, 9, 48, 10, 102, 108, 97, 103, 115, 58, 9, 48, 50, 10]⟩,
+      ⟨[52], .ok [47, 102], .ok [112, 111, 115, 58, 9, 48, 10, 102, 108, 97, 103, 115, 58, 9, 48, 50, 10]⟩]
+    alive := true }
+
+/-- why `cfg_good_scan` / `cfg_good_count` demand `scanLimit = none`, `numFdsCap = none`: a variant of the
+    code that scans `files[:1]` / caps the count silently loses descriptor 4 (the table theorems are
+    ∀ length; these two facts are what ties that quantifier to the code) -/
+theorem C14_scan_limit_drops_silently :
+    openFiles cfg fsW procTwo = .ok [⟨[47, 102], 3, 0, mRp, 2⟩, ⟨[47, 102], 4, 0, mRp, 2⟩] ∧
+    openFiles { cfg with scanLimit := some 1 } fsW procTwo = .ok [⟨[47, 102], 3, 0, mRp, 2⟩] ∧
+    numFds cfg procTwo = .ok 2 ∧ numFds { cfg with numFdsCap := some 1 } procTwo = .ok 1 := by decide
+
+/-! ### what psutil can see: the link text, not the open file (audit item 1) -/
+
+/-- **psutil sees a descriptor only through its link text**: two descriptors whose kinds print the same
+    `/proc/<pid>/fd/<n>` text answer every access identically -/
+theorem C14_sees_only_link_text (d : Fd) (k : FdKind) (h : linkText k = linkText d.kind) :
+    renderFd { d with kind := k } = renderFd d := by
+  unfold renderFd
+  simp only [h]
+  rfl
+
+/-- **the ground truth is unobservable**: an unlinked regular file opened at `path` and a
+    non-regular descriptor (FIFO, directory, memfd …) whose path is literally `path ++ " (deleted)"`
+    are the same to every reader of `/proc/<pid>` — one IS a regular file (`Fd.isReg`), the other is
+    not. No implementation working from procfs can list "exactly the descriptors whose open file is
+    regular"; what is provable (and proved: `C14_open_files_exact`) is exactness with respect to what
+    the monitor's `os.stat` of the link text says. -/
+theorem C14_ground_truth_unobservable (d : Fd) (path : Bytes) :
+    renderFd { d with kind := .regular path true } = renderFd { d with kind := .device (path ++ delText) } ∧
+    Fd.isReg { d with kind := .regular path true } = true ∧
+    Fd.isReg { d with kind := .device (path ++ delText) } = false := by
+  refine ⟨?_, rfl, rfl⟩
+  have h := C14_sees_only_link_text { d with kind := .device (path ++ delText) } (.regular path true)
+    (by simp [linkText])
+  exact h
+
+/-- the reading "exactly the descriptors whose OPEN FILE is a regular file" (the kernel's knowledge of
+    the inode, `groundListed`), at full strength, for an arbitrary configuration -/
+def GroundTruthExact_Full (c : Cfg) : Prop :=
+  ∀ w : World, Live w → Inspectable w → (∀ d ∈ w.fds, WFFd w.fs d) →
+    openFiles c w.fs (renderWorld w) = .ok (w.fds.filterMap groundListed)
+
+/-- live process: `3 -> "/g (deleted)"`, an open regular file that was unlinked; nothing is at `/g` -/
+def wUnlinked : World :=
+  { fds := [⟨3, .regular [47, 103] true, 5, 2, [], none, none⟩], fs := fsW, goneBefore := false, diesAt := none }
+
+/-- **an unlinked-but-open regular file is NOT listed** (false negative with respect to the ground
+    truth): the marker is dropped, nothing is at the name, `isfile_strict` says no. Characterisation:
+    the call succeeds, `num_fds()` still counts the descriptor. -/
+theorem C14_unlinked_open_file_not_listed :
+    openFiles cfg wUnlinked.fs (renderWorld wUnlinked) = .ok [] ∧
+    wUnlinked.fds.filterMap groundListed = [⟨[47, 103], 3, 5, mRp, 2⟩] ∧
+    numFds cfg (renderWorld wUnlinked) = .ok 1 := by
+  rw [C14_open_files_exact wUnlinked (by decide), C14_num_fds]
+  decide
+
+/-- … so the ground-truth reading is REFUTED for the code (and, by `C14_ground_truth_unobservable`, for
+    any code that reads procfs) -/
+theorem C14_ground_truth_not_exact : ¬ GroundTruthExact_Full cfg := by
+  intro h
+  have h1 := h wUnlinked ⟨rfl, rfl⟩ (by unfold Inspectable; decide) (by decide)
+  rw [C14_unlinked_open_file_not_listed.1] at h1
+  revert h1
+  decide
+
+/-- live process: `3 -> "/f (deleted)"`; a regular file lives at `/f` -/
+def wRecreated : World :=
+  { fds := [⟨3, .regular [47, 102] true, 5, 2, [], none, none⟩], fs := fsW, goneBefore := false, diesAt := none }
+
+/-- **a re-created name is reported as if it were the open file**: `3 -> "/f (deleted)"` (the open
+    file was unlinked) while ANOTHER regular file now lives at `/f`: the entry carries the path `/f`
+    with the offset and flags of the unlinked file (inside the well-formed class; the specification,
+    which asks the file system about the name, says the same) -/
+theorem C14_recreated_name_listed :
+    openFiles cfg fsW (renderWorld wRecreated) = .ok [⟨[47, 102], 3, 5, mRp, 2⟩] := by
+  rw [show fsW = wRecreated.fs from rfl, C14_open_files_exact wRecreated (by decide)]
+  decide
+
+/-- `3 -> "/f (deleted)"` where the open file is NOT a regular file (an unlinked FIFO, say), fdinfo
+    `pos:\t0\nflags:\t02\n`; a regular file lives at `/f` -/
+def procFalsePos : Proc :=
+  { fdDir := .ok [⟨[51], .ok ([47, 102] ++ delText), .ok [112, 111, 115, 58, 9, 48, 10, 102, 108, 97, 103, 115, 58, 9, 48, 50, 10]⟩]
+    alive := true }
+
+/-- **false positive outside the well-formed class** (the case `WFKind (.device p)` excludes:
+    `p = x ++ " (deleted)"` with a regular file at `x`): the non-regular descriptor is listed under
+    the other file's name. Characterisation of the code; `procFalsePos` is what the kernel renders for
+    that `.device` descriptor (first conjunct). -/
+theorem C14_deleted_nonregular_false_positive :
+    (renderFd ⟨3, .device ([47, 102] ++ delText), 0, 2, [], none, none⟩).link = .ok ([47, 102] ++ delText) ∧
+    openFiles cfg fsW procFalsePos = .ok [⟨[47, 102], 3, 0, mRp, 2⟩] := by
+  constructor
+  · rfl
+  · decide
+
+/-! ### non-absolute link texts are never handed to `isfile_strict` (audit item 4) -/
+
+/-- **a non-absolute link text is never stat'ed by the filter** — for EVERY file system, even one that
+    refuses every `os.stat` (an unsearchable cwd): a text that does not start with `/` and does not end
+    in `" (deleted)"` (sockets, pipes, anon inodes, `net:[…]`, `(unreachable)/x`, …) is skipped, the
+    answers of the file system are not looked at. Rests on the fact `absFirst`. -/
+theorem C14_nonabsolute_never_stated (fs : FS) (name raw : Bytes) (info : InfoRes)
+    (hrel : raw.head? ≠ some 47) (hdel : endsWith delText (raw.takeWhile (· != 0)) = false) :
+    scanOne cfg fs ⟨name, .ok raw, info⟩ = .skip := by
+  have hg := cfg_good_scan
+  unfold scanOne
+  simp only [pyReadlinkDenied, hg.delSuffix, hdel, Bool.false_and, Bool.and_false, Bool.false_eq_true, if_false,
+    not_abs_of_head cfg hg fs raw hrel, hg.absFirst, Bool.not_true, Bool.or_false]
+
+/-- … the one exception, stated exactly: a non-absolute text that DOES end in `" (deleted)"` is looked up
+    by `readlink()`'s marker rule (`path_exists_strict`, relative to the monitor's cwd); when that
+    look-up is refused the call fails (AccessDenied after `wrap_exceptions`), otherwise the
+    descriptor is skipped. Characterisation (the kernel prints such a text for an unlinked file on a
+    detached mount: `(unreachable)/x (deleted)`); same class as `C14_uninspectable_not_skipped`. -/
+theorem C14_nonabsolute_marker_lookup (fs : FS) (name raw : Bytes) (info : InfoRes)
+    (hrel : raw.head? ≠ some 47) (hdel : endsWith delText (raw.takeWhile (· != 0)) = true) :
+    scanOne cfg fs ⟨name, .ok raw, info⟩ =
+      if fs.denied (raw.takeWhile (· != 0)) then .raise .permissionError else .skip := by
+  have hg := cfg_good_scan
+  have ha := cfg_good_access
+  unfold scanOne
+  simp only [pyReadlinkDenied, hg.delSuffix, hdel, ha.existsDeniedRaises, Bool.true_and,
+    not_abs_of_head cfg hg fs raw hrel, hg.absFirst, Bool.not_true, Bool.or_false, Bool.false_and,
+    Bool.false_eq_true, if_false, deniedLinkStep, ha.linkGoneDenied, ha.linkDeniedRaises, if_true]
+
+/-- a file system that refuses every `os.stat` -/
+def fsAllDenied : FS := { isFile := fun _ => false, pathExists := fun _ => false, denied := fun _ => true }
+
+/-- `3 -> pipe:[1]` -/
+def procPipe : Proc :=
+  { fdDir := .ok [⟨[51], .ok [112, 105, 112, 101, 58, 91, 49, 93], .openErr .enoent⟩], alive := true }
+
+/-- why `cfg_good_scan` demands `absFirst`: with the conjuncts swapped (`isfile_strict(path) and
+    path.startswith('/')`) a pipe makes the call fail under an unsearchable cwd; the code as it is
+    answers `[]` -/
+theorem C14_swapped_filter_stats_relative :
+    openFiles cfg fsAllDenied procPipe = .ok [] ∧
+    openFiles { cfg with absFirst := false } fsAllDenied procPipe = .exc .accessDenied := by decide
+
+/-! ### readlink failing with an errno the code does not name (audit item 5) -/
+
+/-- **any other errno of `os.readlink`**: EINVAL (22) and ENAMETOOLONG (36) skip the descriptor, every
+    other errno (EIO, ELOOP, ENOTDIR, EBADF, …, whatever `OSError` subclass CPython picks) is
+    re-raised — nothing is silently dropped. Rests on the facts `linkSkipErrnos`, `linkGoneExtra`,
+    `linkSkipClasses`. -/
+theorem C14_readlink_other_errno (fs : FS) (name : Bytes) (info : InfoRes) (en : Nat) (cls : Bytes) :
+    scanOne cfg fs ⟨name, .err (.other en cls), info⟩ =
+      if en = 22 ∨ en = 36 then .skip else .raise .osError := by
+  have hg := cfg_good_scan
+  unfold scanOne
+  simp only [linkErrStep, otherLinkStep, hg.linkGoneExtra, hg.linkSkipClasses, hg.linkSkipErrnos, catches]
+  by_cases h1 : en = 22
+  · simp [h1]
+  · by_cases h2 : en = 36
+    · simp [h2]
+    · simp [h1, h2]
+
+/-- `3 -> /f` fine, `4`: readlink fails with EIO (errno 5, plain OSError) -/
+def procEio : Proc :=
+  { fdDir := .ok [⟨[51], .ok [47, 102], .ok [112, 111, 115, 58, 9, 48, 10, 102, 108, 97, 103, 115, 58, 9, 48, 50, 10]⟩,
+      ⟨[52], .err (.other 5 clsOSError), .openErr .enoent⟩]
+    alive := true }
+
+/-- the whole call: the bare OSError leaves `open_files()` (no row of `wrap_exceptions` translates it:
+    characterisation — the statement names closing descriptors, not I/O errors); a variant whose
+    handler also `continue`d on EIO would return a list silently lacking descriptor 4 -/
+theorem C14_readlink_eio_propagates :
+    openFiles cfg fsW procEio = .exc .osError ∧
+    openFiles { cfg with linkSkipErrnos := [5, 22, 36] } fsW procEio = .ok [⟨[47, 102], 3, 0, mRp, 2⟩] ∧
+    openFiles { cfg with linkGoneExtra := [clsOSError] } fsW procEio = .ok [⟨[47, 102], 3, 0, mRp, 2⟩] := by decide
+
+/-! ### the process dies between the readlink and the fdinfo of one descriptor (audit item 6) -/
+
+/-- **death right after a link was read, more descriptors to come** ⇒ NoSuchProcess (unless the monitor
+    had been refused earlier) -/
+theorem C14_dies_after_link_NSP (w : World) (hwf : ∀ d ∈ w.fds, WFFd w.fs d) (k : Nat)
+    (hd : w.diesAt = some k) (hs : w.diesAfterLink = true) (hk : k + 1 < w.fds.length)
+    (hi : w.denied = false) :
+    openFiles cfg w.fs (renderWorld w) = .exc .noSuchProcess := by
+  apply C14_gone_process_NSP w hwf _ (Or.inr hi)
+  have hdied : w.died = true := by simp [World.died, hd]; omega
+  simp only [World.vanished, hdied, Bool.true_and, any_failsGone, World.seen, hd, hs, if_true,
+    killAfter_hits_succ w.fs k w.fds hk, Bool.or_true]
+
+/-- **death between the readlink and the fdinfo of a descriptor that points to a regular file** (whatever
+    its position, the last one included) ⇒ NoSuchProcess: the fdinfo open fails, the final liveness
+    check finds the process gone — never a list lacking that descriptor -/
+theorem C14_dies_between_link_and_fdinfo_NSP (w : World) (hwf : ∀ d ∈ w.fds, WFFd w.fs d) (k : Nat) (d : Fd)
+    (hd : w.diesAt = some k) (hs : w.diesAfterLink = true) (hk : w.fds[k]? = some d)
+    (hr : reachesFdinfo w.fs d.kind = true) (hi : w.denied = false) :
+    openFiles cfg w.fs (renderWorld w) = .exc .noSuchProcess := by
+  apply C14_gone_process_NSP w hwf _ (Or.inr hi)
+  have hlt : k < w.fds.length := by
+    by_contra hc
+    rw [List.getElem?_eq_none (by omega)] at hk
+    cases hk
+  have hdied : w.died = true := by simp [World.died, hd, hlt]
+  simp only [World.vanished, hdied, Bool.true_and, any_failsGone, World.seen, hd, hs, if_true,
+    killAfter_hits_at w.fs k w.fds d hk hr, Bool.or_true]
+
+/-- **death before a link is read** (the round-1 stage) is always noticed -/
+theorem C14_dies_before_link_NSP (w : World) (hwf : ∀ d ∈ w.fds, WFFd w.fs d) (k : Nat)
+    (hd : w.diesAt = some k) (hs : w.diesAfterLink = false) (hk : k < w.fds.length) (hi : w.denied = false) :
+    openFiles cfg w.fs (renderWorld w) = .exc .noSuchProcess := by
+  apply C14_gone_process_NSP w hwf _ (Or.inr hi)
+  have hdied : w.died = true := by simp [World.died, hd, hk]
+  simp [World.vanished, hdied, any_failsGone, World.seen, hd, hs, killFrom_hits w.fs k w.fds hk]
+
+/-- **a death nobody can notice gives the full list**: the process went away during the call, no access
+    made afterwards failed (it died right after the link of its LAST descriptor was read, that one
+    not pointing to a regular file, and no descriptor had closed): the answer is the complete report
+    of the table — never a partial list -/
+theorem C14_death_unnoticed_full_list (w : World) (hwf : ∀ d ∈ w.fds, WFFd w.fs d)
+    (hg : w.goneBefore = false) (_hdied : w.died = true) (hn : w.seen.any (failsGone w.fs) = false)
+    (hi : w.denied = false) :
+    openFiles cfg w.fs (renderWorld w) = .ok (w.fds.filterMap (listed w.fs)) := by
+  rw [C14_open_files_exact w hwf]
+  simp [expectedOpenFiles, World.vanished, hg, hi, hn]
+
+/-- non-vacuity: `3 -> /f`, `4 -> socket:[9]`, death right after the link of index 1 (the socket) was
+    read: unnoticed, full list; death right after the link of index 0: NoSuchProcess -/
+example :
+    let fds : List Fd := [⟨3, .regular [47, 102] false, 7, 2, [], none, none⟩, ⟨4, .socket 9, 0, 2, [], none, none⟩]
+    expectedOpenFiles ⟨fds, fsW, false, some 1, false, false, true⟩ = .ok [⟨[47, 102], 3, 7, mRp, 2⟩] ∧
+    expectedOpenFiles ⟨fds, fsW, false, some 0, false, false, true⟩ = .exc .noSuchProcess ∧
+    (⟨fds, fsW, false, some 1, false, false, true⟩ : World).died = true := by decide
+
 end Psutil.C14
